@@ -30,6 +30,7 @@ func newQueue(capacity uint) queue {
 // push adds an entry to the buffer in a FIFO fashion. If the queue is full, the first
 // entry is dropped to make space for the newest entry and returns true.
 func (q *queue) push(entry any) (droppedEvent any) {
+	defer verifYield("pushed") // after the unlock; no-op without the verif build tag
 	q.mut.Lock()
 	defer q.mut.Unlock()
 
